@@ -54,6 +54,10 @@ def sites(tree, only_func=None):
             out.append(('not', i))
         elif isinstance(n, (ast.Expr, ast.Assign, ast.AugAssign)) and not (
                 isinstance(n, ast.Expr) and isinstance(n.value, ast.Constant)):
+            # dropping the only binding of a local just raises NameError: not interesting
+            if isinstance(n, ast.Assign) and all(isinstance(t, (ast.Name, ast.Tuple))
+                                                 for t in n.targets):
+                continue
             out.append(('del', i))
         elif isinstance(n, ast.If) and not n.orelse:
             out.append(('iftrue', i))
